@@ -318,6 +318,32 @@ class Ctx:
         for fname, init in (("_task_ending", frozenset({"R", "C"})), ("_task_cancellation", frozenset({"R"}))):
             for f in self.pool_funcs(fname, required=False):
                 out |= self._loc_analysis(f, init)
+        # propagate to callers: a call step cannot leave by an exception that its callees can no longer raise
+        def ef(a: Node, b: Node, lab: Label) -> bool:
+            return (a.func.qual, id(a.ast), lab) not in out
+        changed = True
+        rounds = 0
+        while changed and rounds < 6:
+            changed = False
+            rounds += 1
+            for f in self.prog.all_functions():
+                g = self.an.cfg(f)
+                for n in g.nodes:
+                    cal = runs_callee(n)
+                    if cal is None:
+                        continue
+                    for s, lab in n.succ:
+                        if lab[0] != "x" or (f.qual, id(n.ast), lab) in out:
+                            continue
+                        possible = False
+                        for t in cal.targets:
+                            tg = self.an.cfg(t)
+                            rx = tg.raise_exits.get(lab)
+                            if rx is not None and rx in reach([tg.entry], ef):
+                                possible = True
+                        if not possible:
+                            out.add((f.qual, id(n.ast), lab))
+                            changed = True
         return out
 
     def _loc_analysis(self, f: FuncInfo, init: frozenset) -> Set[Tuple[str, int, Label]]:
